@@ -1,7 +1,8 @@
 """C19 - output is a function of the input alone (claimed PARTIAL).
 Observation: every case (journals from the C01/C02/C04/C09 generators, a malformed stream, value
 expressions) is run with a rotating command under 6-8 perturbed layouts: address-space randomisation
-on/off (setarch -R), MALLOC_PERTURB_, MALLOC_ARENA_MAX, MALLOC_TOP_PAD_, the environment padded by 0-4 KiB,
+on/off (setarch -R), MALLOC_PERTURB_, MALLOC_ARENA_MAX, MALLOC_TOP_PAD_, MALLOC_MMAP_THRESHOLD_=0, glibc.malloc.tcache_count,
+the environment padded by 0-4 KiB,
 different working directories and journal path lengths, always with --now; stdout, stderr (with the
 journal path normalised) and the exit status must coincide (xml object ids removed, as documented).
 Correspondence: for the transaction journals the first layout's result is also compared with the
@@ -27,6 +28,8 @@ COMMANDS = [
     ['bal', '--time-report'], ['bal', '--time-report', '--flat'], ['reg', '--dow'], ['reg', '--lots'], ['bal', '--lots', '-V'],
     ['reg', '--collapse'], ['reg', '--average'], ['bal', '--depth', '1'], ['print', '--raw'], ['reg', '--wide', '--related-all'],
     ['pricedb'], ['reg', '--deviation'], ['bal', '--percent'], ['reg', '--unround', '-B'], ['bal', '--pivot', 'tag'],
+    ['reg', '--collapse', '--depth', '1'], ['reg', '--collapse', '--depth', '2'], ['reg', '-n', '--depth', '1', '-B'],
+    ['reg', '--depth', '1'], ['reg', '--by-payee', '--depth', '1'], ['reg', '--subtotal', '--depth', '2'],
 ]
 
 
@@ -42,6 +45,10 @@ def layouts(ctx, k):
             env['MALLOC_ARENA_MAX'] = '1'
         if i % 3 == 2:
             env['MALLOC_TOP_PAD_'] = str(4096 * i)
+        if i % 4 == 3:
+            env['MALLOC_MMAP_THRESHOLD_'] = '0'            # every allocation its own mapping: other relative addresses
+        if i in (2, 4, 7):
+            env['GLIBC_TUNABLES'] = 'glibc.malloc.tcache_count=%d' % (i - 2)
         pre = ['setarch', os.uname().machine, '-R'] if (have_setarch and i % 2 == 1) else []
         sub = 'd%d' % i + ('_' + 'p' * (13 * i) if i % 2 else '')
         outs.append((pre, env, sub))
@@ -113,7 +120,7 @@ def run(ctx, n_override=None):
     res = lib.Result()
     res.rule = ('cases: transaction journals from the C01, C02 and C09 generators, amount-style journals from the C04 generator, '
                 'byte/line mutations of those (malformed stream), each with one of %d commands, under 6 (quick) / 8 (thorough) layouts '
-                '(ASLR on/off, MALLOC_PERTURB_/ARENA_MAX/TOP_PAD_, 0-4 KiB extra environment, other cwd and journal path length); '
+                '(ASLR on/off, MALLOC_PERTURB_/ARENA_MAX/TOP_PAD_/MMAP_THRESHOLD_, tcache_count, 0-4 KiB extra environment, other cwd and journal path length); '
                 'non-trivial = ledger produced output or a located error for it; distinct by (text, command)' % len(COMMANDS))
     n = n_override or ctx.scale(150, 1500)
     nlay = 6 if ctx.tier == 'quick' else 8
